@@ -36,7 +36,7 @@ var vBatchStmts = []vBatchStmt{
 	{", value", "key >= 'a0' & key <= 'a9' & value = 'x'", func(k, v []byte) bool { return bytes.Equal(v, []byte("x")) },
 		[]func(k, v []byte) (any, bool){vTextCol(func(k, v []byte) []byte { return v })}, "xy"},
 	// point reads
-	{", value", "key in ('a0', 'a1', 'a2', 'a3', 'a4', 'a5', 'zz') & value = 'x'", func(k, v []byte) bool { return bytes.Equal(v, []byte("x")) },
+	{", value", "key in ('a0', 'a1', 'a2', 'a3', 'a4', 'a5', 'zz') & value = 'x'", func(k, v []byte) bool { return k[1] <= '5' && bytes.Equal(v, []byte("x")) },
 		[]func(k, v []byte) (any, bool){vTextCol(func(k, v []byte) []byte { return v })}, "xy"},
 	// alias used once in WHERE (chunk cache: filter chunk -> projection)
 	{", upper(value) as u", "u = 'X'", func(k, v []byte) bool { return bytes.Equal(vUpper(v), []byte("X")) },
@@ -52,7 +52,7 @@ var vBatchStmts = []vBatchStmt{
 		return vOr(n == 1, n == 3)
 	}, []func(k, v []byte) (any, bool){vIntCol(func(k, v []byte) int64 { return vDecimalValue(v) }), vIntCol(func(k, v []byte) int64 { return int64(len(k)) })}, "0123"},
 	// alias over point reads
-	{", upper(value) as u", "key in ('a0', 'a1', 'a2', 'a3', 'a4', 'a5') & u = 'X' & u != 'Y'", func(k, v []byte) bool { return bytes.Equal(vUpper(v), []byte("X")) },
+	{", upper(value) as u", "key in ('a0', 'a1', 'a2', 'a3', 'a4', 'a5') & u = 'X' & u != 'Y'", func(k, v []byte) bool { return k[1] <= '5' && bytes.Equal(vUpper(v), []byte("X")) },
 		[]func(k, v []byte) (any, bool){vTextCol(func(k, v []byte) []byte { return vUpper(v) })}, "xy"},
 	// alias inside a call argument and in a second field
 	{", upper(value) as u, join('-', u, key) as j", "strlen(u) = 1 & u = 'X'", func(k, v []byte) bool { return bytes.Equal(vUpper(v), []byte("X")) },
